@@ -246,6 +246,7 @@ func c20ChangeStore(env *Env, res *Result) {
 				res.Incomplete = append(res.Incomplete, fmt.Sprintf("c20/changestore/depth%d", depth))
 				return
 			}
+			Progress.Add(1) // the watchdog must see the search move
 			m, _ := csReplay(path)
 			for _, e := range csEnabled(m, maxN) {
 				np := append(append([]csEvent(nil), path...), e)
@@ -279,6 +280,9 @@ func c20ChangeStore(env *Env, res *Result) {
 			}
 		}
 		frontier = next
+		if env.Shard == 0 {
+			res.Notes = append(res.Notes, fmt.Sprintf("changestore BFS depth %d: %d states, frontier %d, %d transitions", depth+1, len(seen), len(frontier), trans))
+		}
 	}
 	if env.Shard == 0 {
 		res.States += len(seen)
